@@ -373,8 +373,10 @@ def check(prop, tier, only=None):
                 if kind == "vec":
                     continue
                 n = nat[i]
-                reproduced = ("error" not in n) and not n.get("skipped") and (
-                    (kind == "cex" and x["name"] in (n.get("failures") or [])) or (kind == "panic" and "panic" in n))
+                # a failure recorded natively before a later Assume stopped the run still reproduces the violation: the engine
+                # reports at the assertion site, and symbols drawn after it are not in the model (they default to zero natively)
+                reproduced = ("error" not in n) and (
+                    (kind == "cex" and x["name"] in (n.get("failures") or [])) or (kind == "panic" and "panic" in n and not n.get("skipped")))
                 rp = os.path.join(ROOT, "evidence", "replays", "%s_%s_%s_%d.json" % (
                     prop, re.sub(r"\W+", "_", o["name"])[:24], hashlib.sha1((o["name"] + json.dumps(o.get("params", {}))).encode()).hexdigest()[:8], i))
                 os.makedirs(os.path.dirname(rp), exist_ok=True)
